@@ -262,7 +262,12 @@ func TestVerifC16c(t *testing.T) {
 	if r.Thorough() {
 		hists = []int{1, 2, 3}
 	}
-	r.SetBound(fmt.Sprintf("part c: directory pre-state {%s} x boot {%s} x history of %v saves x kill at each of the %d crash points of the last save (%d reached; %s) or no kill, "+
+	abLen := 4
+	if r.Thorough() {
+		abLen = 5
+	}
+	r.SetBound(fmt.Sprintf("parts a, b (package dastard): all status-update sequences of length 0..%d through the real RunClientUpdater + SENDALL over ZMQ; real saveState -> fresh viper -> start-up decoding "+
+		"of enumerated values of every persisted structure, two saves and three start-ups per execution (details in coverage.rule). ", abLen) + fmt.Sprintf("part c: directory pre-state {%s} x boot {%s} x history of %v saves x kill at each of the %d crash points of the last save (%d reached; %s) or no kill, "+
 		"x torn temporary file {%s} at the point after WriteConfigAs; recovery by the real setupViper, then one further complete save and restart",
 		strings.Join(v16cPreNames, ", "), strings.Join(v16cBootNames, ", "), hists, len(points), nreached, vhook.PointDoc(points[afterWrite]), strings.Join(v16cTornNames, ", ")))
 
